@@ -1350,9 +1350,16 @@ def run(ck):
         phases[name] = round(time.time() - t_ph[0], 1)
         t_ph[0] = time.time()
     ck.notes["phase_seconds"] = phases
-    ck.build_proofs()
+    ck.build_proofs(extra_targets=["theories/Status/StatusGenProofs.vo"])
     try:
         from translate import regen
+        st2 = regen.status().get("tcode_status", {})
+        ck.notes["tcode_status"] = (
+            "Status/StatusGen.v regenerated from the current source; Status/StatusGenProofs.v proves it equal to "
+            "the models (status_subtree, write_status text, csvtable_to_dict, get_status, lock event lists)"
+            if st2.get("ok") else
+            "not-translatable (committed Status/StatusGen.v stays; the correspondence run carries the tie): "
+            + str(st2.get("not_translatable", "?")))
         st = regen.status().get("tdata_status", {})
         ck.notes["tdata_status"] = ("regenerated from the current source: " + ",".join(st.get("files", []))) \
             if st.get("ok") else ("not-translatable (committed Gen/StatusData.v stays; the correspondence run "
